@@ -46,7 +46,7 @@ class Pipeline(Component):
     rule = "join result non-empty and candidate set strictly larger"
 
     def examples(self, tier):
-        return 150 if tier == "quick" else 1200
+        return 300 if tier == "quick" else 1200
 
     def strategy(self, tier):
         return pipeline_case(tier)
